@@ -40,6 +40,17 @@ def absent_candidates(keys, dt, mod_eff):
     return same, empty
 
 
+TYPED = [("uint64", 2**63 + 2**53 + 1), ("uint64", 2**53 + 1), ("int64", 2**60 + 1), ("int64", -2**62 - 1), ("int32", 2**30), ("uint16", 1000),
+         ("float64", 0), ("uint64", 0)]
+
+
+def typed_init(init, n):
+    """per-key initial totals as an explicitly typed array; 64-bit types start far above 2**53 (no total leaves the type's range:
+    a history adds at most a few hundred occurrences)"""
+    dt, off = TYPED[init[0] % len(TYPED)]
+    return np.array([off + v for v in init[:n]], dtype=dt)
+
+
 class Harness:
     def __init__(self):
         self.trace = []
@@ -69,10 +80,15 @@ class Harness:
             v = 1 + init[0]
             f = lambda: Counter(karr, v, **kw)
             self.m = {k: v for k in keys}
+        elif ikind == "array-typed":
+            arr = typed_init(init, n)
+            f = lambda: Counter(karr, arr.copy(), **kw)
+            self.m = dict(zip(keys, [int(x) for x in arr]))
+            self.labels.append("init-dtype:" + str(arr.dtype))
         else:
             f = lambda: Counter(karr, np.array(init[:n]), **kw)
             self.m = dict(zip(keys, init[:n]))
-        self.nondefault = ikind in ("scalar", "array")
+        self.nondefault = ikind in ("scalar", "array", "array-typed")
         r = lib(f)
         if not r.ok:
             raise Violation("init:refused", got=r.brief(), keys=keys, mod=mod)
@@ -162,7 +178,7 @@ def machine(tier, sink):
                 self.violation = v
                 raise
 
-        @initialize(setup=key_setup(), ikind=st.sampled_from(["default", "scalar0", "scalar", "array"]),
+        @initialize(setup=key_setup(), ikind=st.sampled_from(["default", "scalar0", "scalar", "array", "array-typed"]),
                     init=st.lists(st.integers(0, 9), min_size=12, max_size=12))
         def init(self, setup, ikind, init):
             dt, keys, mod = setup
@@ -192,6 +208,8 @@ def totals(dt, keys, mod, ikind, init, batches):
         c = Counter(karr, **kw)
     elif ikind == "scalar":
         c = Counter(karr, 1 + init[0], **kw)
+    elif ikind == "array-typed":
+        c = Counter(karr, typed_init(init, len(keys)), **kw)
     else:
         c = Counter(karr, np.array(init[:len(keys)]), **kw)
     for b in batches:
@@ -207,7 +225,8 @@ def body_meta(case, ctx):
     pool = list(keys) + same[:3] + empty[:3]
     samples = [pool[i % len(pool)] for i in case["s"]]
     base = {"default": 0, "scalar": 1 + case["init"][0]}.get(case["ikind"])
-    exp = [(base if base is not None else case["init"][j]) + samples.count(k) for j, k in enumerate(keys)]
+    per_key = [int(x) for x in typed_init(case["init"], n)] if case["ikind"] == "array-typed" else case["init"]
+    exp = [(base if base is not None else per_key[j]) + samples.count(k) for j, k in enumerate(keys)]
     ctx.label("dt:" + dt, "init:" + case["ikind"], "variant:" + case["variant"][0])
     ctx.nt(len(samples) >= 2 and any(s not in keys for s in samples))
     ref = lib(totals, dt, keys, mod, case["ikind"], case["init"], [samples])
@@ -235,7 +254,7 @@ def meta_case(draw, tier):
     variant = draw(st.one_of(st.tuples(st.just("modulus"), st.integers(0, 20)).map(list),
                              st.tuples(st.just("permute"), st.integers(1, 1000)).map(list),
                              st.tuples(st.just("split"), st.lists(st.integers(0, 40), min_size=1, max_size=4)).map(list)))
-    return {"dt": dt, "keys": keys, "mod": mod, "ikind": draw(st.sampled_from(["default", "scalar", "array"])),
+    return {"dt": dt, "keys": keys, "mod": mod, "ikind": draw(st.sampled_from(["default", "scalar", "array", "array-typed"])),
             "init": draw(st.lists(st.integers(0, 9), min_size=12, max_size=12)),
             "s": draw(st.lists(st.integers(0, 40), max_size=25)), "variant": variant}
 
